@@ -342,6 +342,12 @@ func decodeStructValueSlice(field reflect.Value, fieldType reflect.StructField, 
 		})
 	}
 
+	if n := len(els); n > 1 && strip != "" && strings.Trim(els[n-1], strip) == "" {
+		/* "a, b," - a delimiter after the last element (wrap-and-sort -t
+		 * writes lists that way) does not start another, empty one */
+		els = els[:n-1]
+	}
+
 	for _, el := range els {
 		el = strings.Trim(el, strip)
 
